@@ -78,6 +78,7 @@ func runSmall(c *core.Ctx) []core.Obligation {
 	smallNoFieldByIndex(c, b)
 	smallDirectNamesShadowBoth(c, b)
 	smallMarshalerNilChecked(c, b)
+	smallStringOptionExact(c, b)
 	smallStringOptionNull(c, b)
 	smallStringOptionMarshaler(c, b)
 	return b.out
@@ -3249,4 +3250,39 @@ func smallStringOptionMarshaler(c *core.Ctx, b *ob) {
 	if n == 0 {
 		b.addP(props, core.Undecided, "string-option:marshalers", c.FuncPos(fn), "no installation of the string wrapper found in appendStructFields")
 	}
+}
+
+// S53 — with the ",string" option the text inside the quotes is exactly one literal: encoding/json
+// rejects "false " and "1.5 " (invalid use of ,string). decodeFromString hands the unquoted text to
+// the value decoder and requires that nothing remains; skipping white space first accepts what the
+// standard library rejects.
+func smallStringOptionExact(c *core.Ctx, b *ob) {
+	props := []string{"C02"}
+	key := "string-option:nothing-after-the-literal"
+	fn := c.Lookup("json.(decoder).decodeFromString")
+	if fn == nil {
+		b.addP(props, core.Undecided, key, "-", "json.(decoder).decodeFromString not found")
+		return
+	}
+	tested := false
+	for _, blk := range fn.Blocks {
+		for _, in := range blk.Instrs {
+			if bo, ok := in.(*ssa.BinOp); ok {
+				if _, isLen := lenArg(bo.X); isLen {
+					tested = true
+				}
+			}
+		}
+	}
+	for _, ci := range callsIn(fn) {
+		if f := staticCallee(ci.Common()); f != nil && strings.HasPrefix(f.Name(), "skipSpaces") {
+			b.addP(props, core.Violation, key, c.InstrPos(ci), "decodeFromString skips white space in the unquoted text of a \",string\" value before requiring that nothing follows the literal: \"false \", \"1.5 \" and \"\\\"a\\\" \" are accepted where encoding/json reports an invalid use of ,string")
+			return
+		}
+	}
+	if !tested {
+		b.addP(props, core.Violation, key, c.FuncPos(fn), "decodeFromString does not test that the value decoder consumed the whole unquoted text: \"1x\" is accepted for a \",string\" number")
+		return
+	}
+	b.addP(props, core.Discharged, key, c.FuncPos(fn), "the remainder after the literal must be empty, white space included")
 }
